@@ -8,6 +8,7 @@ import (
 	"sync/atomic"
 	"time"
 
+	"github.com/openebs/jiva/rpc"
 	"github.com/openebs/jiva/types"
 
 	"verif/harness/internal/reng"
@@ -977,10 +978,19 @@ func RunSnapshots(w *World, idx int) {
 }
 
 // RunWorker runs `cases` controller histories.
+// NetMode makes RunWorker build its worlds over the real backend factory (net.go).
+var NetMode bool
+
 func RunWorker(prop string, seed uint64, worker, cases int, out string) error {
 	reng.QuietLogs()
 	reng.RaiseFdLimit()
 	res := vk.NewResult("ctlsim")
+	if NetMode {
+		// the deadlines of the data connection, through the production knobs
+		types.RPCReadTimeout, types.RPCWriteTimeout = time.Second, time.Second
+		rpc.SetRPCTimeout()
+		res.Count("net_mode_workers", 1)
+	}
 	jpath := out + ".journal"
 	propNo := 0
 	fmt.Sscanf(prop, "C%d", &propNo)
@@ -1000,7 +1010,11 @@ func RunWorker(prop string, seed uint64, worker, cases int, out string) error {
 		if prop == "C19" {
 			caseRF = 1 // a cloned volume starts with its clone replica alone
 		}
-		w := NewWorld(prop, caseRF, size, r, res, 20+(propNo*16+worker)%200, (os.Getpid()*7)%250)
+		mk := NewWorld
+		if NetMode {
+			mk = NewNetWorld
+		}
+		w := mk(prop, caseRF, size, r, res, 20+(propNo*16+worker)%200, (os.Getpid()*7)%250)
 		w.Seed, w.Case, w.Journal = cs, worker*100000+c, j
 		runScenario(w, prop, idx)
 		w.Close()
